@@ -32,7 +32,7 @@ ASSUMPTIONS = [
     "sharing of debug type objects is not compared, only their structure (bisimulation)",
 ]
 TRUSTED = ["CPython", "Hypothesis", "structural comparison and generators in vf/objgen.py"]
-REGISTER = False
+REGISTER = True
 TECHNIQUE = "Hypothesis object descriptions + compiled programs; save/load round trip compared field by field; link equivalence"
 LEVEL_TEXT = (
     "Exploration: generated objects carrying every attribute the format has (and compiled objects with real debug "
@@ -541,6 +541,8 @@ def _worker(arg):
 
 
 def run(ctx):
+    import ppci.api  # noqa: F401  (imported before the pool forks, so that the workers share it)
+
     exclude = sorted(active_findings())
     if exclude:
         ctx.stats.notes.append("generator exclusions active for %s" % ", ".join(exclude))
